@@ -36,7 +36,7 @@ def battery(seed, n):
 
     rng = random.Random("battery/%d" % seed)
     items = []
-    kinds = ["tree", "doc", "doc", "textdoc", "headc", "jsx", "css", "classes", "attrs"]
+    kinds = ["tree", "doc", "doc", "textdoc", "headc", "jsx", "css", "classes", "attrs", "typed_attrs"]
     for i in range(n):
         k = kinds[i % len(kinds)]
         if k == "tree":
@@ -75,6 +75,12 @@ def battery(seed, n):
             for _ in range(rng.randint(3, 10)):
                 ops.append(["add" if rng.random() < 0.6 else "remove", rng.choice(c16.TOKENS[:8]), rng.random() < 0.5])
             items.append((k, ops))
+        elif k == "typed_attrs":
+            # value-equal but differently typed attribute values (True == 1 == 1.0, False == 0 == 0.0)
+            pool = [{"t": "true"}, {"t": "false"}, {"t": "num", "v": 1}, {"t": "num", "v": 0}, {"t": "num", "v": 1.0}, {"t": "num", "v": 0.0},
+                    {"t": "str", "s": "1"}, {"t": "str", "s": ""}, {"t": "none"}, {"t": "num", "v": -0.0}]
+            names = ["checked", "disabled", "cx", "r", "x", "value", "tabindex"]
+            items.append((k, [[nm, rng.choice(pool)] for nm in rng.sample(names, rng.randint(2, 5))]))
         else:
             items.append((k, c03.rand_case(rng)))
     return items
@@ -115,6 +121,10 @@ def run_item(kind, r):
             else:
                 t.remove_class(tok)
         return {"html": _d(str(t))}
+    if kind == "typed_attrs":
+        t = ht.Tag("input", **{n: gen.build_attr_value(v) for n, v in r})
+        css_ = ht.css(**{n: gen.build_attr_value(v) for n, v in r if v["t"] in ("num", "str")})
+        return {"html": _d(t.get_html_string() + repr(css_))}
     if kind == "attrs":
         tag, _ = run_attr(r)
         return {"html": _d(tag.get_html_string())}
@@ -135,11 +145,13 @@ def child_main(argv):
     if mode == "only":
         idx = [int(x) for x in argv[3].split(",")]
         res["only"] = {str(i): run_item(*items[i]) for i in idx}
-    else:
+    elif mode in ("forward", "reversed", "shuffled"):
+        # one order per process: every order starts from a fresh interpreter, so history-dependent state
+        # (caches, counters) built by one order cannot make the next order agree with it
         rng = random.Random(1234)
-        orders = {"forward": list(range(n)), "reversed": list(range(n))[::-1], "shuffled": rng.sample(range(n), n)}
-        for name, order in orders.items():
-            res[name] = {str(i): run_item(*items[i]) for i in order}
+        order = {"forward": list(range(n)), "reversed": list(range(n))[::-1], "shuffled": rng.sample(range(n), n)}[mode]
+        res[mode] = {str(i): run_item(*items[i]) for i in order}
+    else:
         inter = {}
         for i in range(n):
             # unrelated work between items: renders, documents, head_content with other payloads, a dependency resolution
@@ -167,13 +179,21 @@ def run(ctx):
     from .. import gen
     from concurrent.futures import ThreadPoolExecutor
 
-    n = 153 if not ctx.thorough else 4005
+    n = 160 if not ctx.thorough else 4000
     hashseeds = [0, 1, 2, 3, 4, 5, 6, 7] if not ctx.thorough else list(range(0, 36)) + [4242, 99999, 2**31, 4294967295, "random", "random", "random", "random", "random", "random", "random", "random"]
     items = battery(ctx.seed, n)
+    ORDERS = ("forward", "reversed", "shuffled", "interleaved")
+    jobs = [(hs, od) for hs in hashseeds for od in ORDERS]
     with ThreadPoolExecutor(max_workers=14) as ex:
-        outs = list(ex.map(lambda hs: spawn(hs, ctx.seed, n, "all"), hashseeds))
-    ctx.notes["distinct_hash_functions_observed"] = len({o["hash_probe"] for o in outs})
-    ctx.notes["processes"] = len(outs)
+        raw = list(ex.map(lambda j: spawn(j[0], ctx.seed, n, j[1]), jobs))
+    outs = []
+    for k, hs in enumerate(hashseeds):
+        merged = {}
+        for r_ in raw[k * len(ORDERS):(k + 1) * len(ORDERS)]:
+            merged.update(r_)
+        outs.append(merged)
+    ctx.notes["distinct_hash_functions_observed"] = len({o["hash_probe"] for o in raw})
+    ctx.notes["processes"] = len(raw)
     ref = outs[0]["forward"]
     for i in range(n):
         kind, recipe = items[i]
@@ -183,7 +203,7 @@ def run(ctx):
                 v = json.dumps(o[order][str(i)], sort_keys=True)
                 seen.setdefault(v, []).append((str(hs), order))
                 ctx.count("monitor.digest_comparisons")
-        ctx.case((kind, recipe), nontrivial=kind in ("doc", "textdoc", "headc", "attrs", "classes", "css", "jsx"))
+        ctx.case((kind, recipe), nontrivial=kind in ("doc", "textdoc", "headc", "attrs", "classes", "css", "jsx", "typed_attrs"))
         ctx.state("battery_kinds", kind)
         if len(seen) > 1:
             groups = list(seen.values())
@@ -211,9 +231,21 @@ def run(ctx):
              for _ in range(crng.randint(0, 2))]
         if crng.random() < 0.3:
             p.append({"k": "html", "s": crng.choice(["<x>", "<y>", "<x> "])})
+        if crng.random() < 0.25:
+            # a dependency inside the payload is invisible in the rendered content, so it must not influence the name
+            p.insert(crng.randint(0, len(p)), {"k": "dep", "name": crng.choice(["nd1", "nd2"]), "version": "1.0", "script": [{"src": "n.js"}]})
         live = [gen.build(c) for c in p]
         hc = ht.head_content(*live)
         html = ht.TagList(*[gen.build(c) for c in p]).get_html_string()
+        import htmltools as _h
+        old_mode = _h.html_dependency_render_mode
+        _h.html_dependency_render_mode = "json"
+        try:
+            hc_json = ht.head_content(*[gen.build(c) for c in p])
+        finally:
+            _h.html_dependency_render_mode = old_mode
+        if hc_json.name != hc.name:
+            ctx.violation("head-content-name-not-content-function", "the name of the same head content depends on the global dependency render mode", {"payload": p})
         corpus += 1
         ctx.count("monitor.headcontent_pairs")
         if by_name.setdefault(hc.name, html) != html:
